@@ -306,7 +306,8 @@ TAG_RECURSIVE = 228          # only used to decide how to PRINT a message (ints 
                              # compared against the generated constants inside the extracted model
 COLL_KIND = {"MPI_Allgather": 1, "MPI_Allgatherv": 2, "MPI_Alltoall": 3, "MPI_Reduce_scatter_block": 4, "MPI_Allreduce": 10}
 TAG_RANGES = 224
-COSIM_TYPES = [0, 1, 2, 3, 4, 5, 6, 7]
+COSIM_TYPES = [0, 1, 2, 3, 4, 5, 6, 7, 8]
+TAG_SUPER_TRUE, TAG_SUPER_EXTRA = 226, 227
 
 
 def _npay(sz):
@@ -366,6 +367,23 @@ def nbx_events(raw, q):
     return evs
 
 
+def sup_extra(case, p, q):
+    """the superset pattern of tools/harness/c01_harness.c (call 0): p additionally contacts q"""
+    x = (case.superseed + p * 104729 + q * 1299709) & 0xffffffff
+    x ^= x >> 11
+    x = (x * 0x9e3779b1) & 0xffffffff
+    x ^= x >> 14
+    return (x % 4) == 0
+
+
+def superset_sets(case, me):
+    P = case.P
+    R = case.patterns[0]
+    extra = [q for q in range(P) if q not in R[me] and sup_extra(case, me, q)]
+    supers = [q for q in range(P) if me in R[q] or sup_extra(case, q, me)]
+    return extra, supers
+
+
 def cosim_line(case, run, q, trace_by_rank, accum_targets):
     c = case
     P = c.P
@@ -381,9 +399,9 @@ def cosim_line(case, run, q, trace_by_rank, accum_targets):
         vec = [1 if t in accum_targets[q] else 0 for t in range(P)]
         hits = sum(1 for r in range(P) for t in accum_targets[r] if t == q)
         evs.append("C 5 -1 %s %x" % (",".join("%x" % v for v in vec) if vec else "-", hits))
-    if c.type == 6:
+    if c.type in (6, 8):
         evs += nbx_events(run.trace, q)
-    for e in ([] if c.type == 6 else mpitrace.canonical_windows(mpitrace.merge_probe_recv(trace_by_rank[q]))):
+    for e in ([] if c.type in (6, 8) else mpitrace.canonical_windows(mpitrace.merge_probe_recv(trace_by_rank[q]))):
         if e[0] == "S":
             unit = 4 if e[2] >= TAG_RECURSIVE else 1
             data = _mask_records(e[3], npay, sz) if e[2] >= TAG_RECURSIVE + 32 else e[3]
@@ -420,7 +438,11 @@ def cosim_line(case, run, q, trace_by_rank, accum_targets):
     if haspay and R:
         items = "/".join(",".join("%x" % pay_byte(0, q, r, k) for k in range(sz)) for r in R)
     rs = ",".join("%x" % r for r in R) if R else "-"
-    return "prog %x %x %x %x %x %x %d %d %x %d %s %s | %s" % (c.type, P, q, (c.nranges if c.type == 7 else c.ntop), c.nint, c.nbot, 1 if c.sorted else 0, haspay, sz, eager, rs, items, " ; ".join(evs))
+    more = ""
+    if c.type == 8:
+        ex, su = superset_sets(c, q)
+        more = " %s %s" % (",".join("%x" % v for v in ex) or "-", ",".join("%x" % v for v in su) or "-")
+    return "prog %x %x %x %x %x %x %d %d %x %d %s %s%s | %s" % (c.type, P, q, (c.nranges if c.type == 7 else c.ntop), c.nint, c.nbot, 1 if c.sorted else 0, haspay, sz, eager, rs, items, more, " ; ".join(evs))
 
 
 def gen_cosim_cases(ctx, paymodes, n):
@@ -532,3 +554,104 @@ def crash_violation(ctx, cases, runs, rc, err, what="notify harness"):
     if case is not None:
         rep["case"] = case.to_json()
     ctx.violation(key, text, rep)
+
+
+# ---------------------------------------------------------------------------------------------------------
+# T3 for sc_notify_payloadv with pcx / rsx (sc_notify_payloadv_census): variable slices, output offsets
+# ---------------------------------------------------------------------------------------------------------
+TAG_CENSUSV = 219
+
+
+def cosimv_line(case, run, q, trace_by_rank, raw):
+    c = case
+    P = c.P
+    R = c.patterns[0][q]
+    lens = c.lengths[0][q]
+    msz = c.paysize
+    evs = []
+    if c.type == 5:
+        vec = [0, 0] * P
+        for e in raw:
+            if e.get("f") == "MPI_Accumulate" and e.get("r") == q:
+                d = bytes.fromhex(e.get("d", ""))
+                t = e.get("target")
+                vec[2 * t] = int.from_bytes(d[0:4], "little", signed=True)
+                vec[2 * t + 1] = int.from_bytes(d[4:8], "little", signed=True)
+        hits = [0, 0]
+        for e in raw:
+            if e.get("f") == "MPI_Accumulate" and e.get("target") == q:
+                d = bytes.fromhex(e.get("d", ""))
+                hits[0] += int.from_bytes(d[0:4], "little", signed=True)
+                hits[1] += int.from_bytes(d[4:8], "little", signed=True)
+        evs.append("C 5 -1 %s %x,%x" % (",".join("%x" % v for v in vec), hits[0], hits[1]))
+    for e in mpitrace.canonical_windows(mpitrace.merge_probe_recv(trace_by_rank[q])):
+        if e[0] == "S":
+            evs.append("S %x %x %s" % (e[1], e[2], mpitrace.hexints(e[3], 1)))
+        elif e[0] == "R":
+            evs.append("R %s %x %x %s" % (("-1" if e[1] < 0 else "%x" % e[1]), e[2], e[3] if e[3] is not None else 0, mpitrace.hexints(e[4] or b"", 1)))
+        elif e[0] == "C":
+            kind = COLL_KIND.get(e[1])
+            evs.append("C %x -1 %s %s" % (kind if kind is not None else 63, mpitrace.hexints(e[3], 4, signed=True), mpitrace.hexints(e[4], 4, signed=True)))
+    out = None
+    for o in run.outs:
+        left, pay, rest = o.split(" | ")
+        w = left.split()
+        if int(w[0]) == 0 and int(w[1]) == q:
+            ns = int(w[2])
+            senders = [int(x) for x in w[3:3 + ns]]
+            pb = b"" if pay.strip() == "-" else bytes.fromhex(pay.strip())
+            rw = rest.split()
+            offs = [] if rw[1] == "-" else [int(x) for x in rw[1].split(",") if x != ""]
+            out = [ns] + senders + offs + list(pb)
+    if out is None:
+        return None
+    evs.append("O " + ",".join(_hx(v) for v in out))
+    rs = ",".join("%x" % r for r in R) if R else "-"
+    ls = ",".join("%x" % l for l in lens[:len(R)]) if R else "-"
+    sl = "/".join((",".join("%x" % pay_byte(0, q, r, k) for k in range(l * msz)) or ".") for r, l in zip(R, lens)) if R else "-"
+    return "progv %x %x %x %d %x %s %s %s | %s" % (c.type, P, q, 1 if c.sorted else 0, msz, rs, ls, sl, " ; ".join(evs))
+
+
+def cosimv_tie(ctx, ncases):
+    rng = ctx.rng
+    cases = []
+    for i in range(ncases):
+        c = make_case(rng, rng.choice([1, 2, 3, 4, 5, 7, 8, 9, 12]), rng.choice([4, 5]), paymode=2, paysize=rng.choice([1, 2, 3, 4, 5, 8]))
+        cases.append(c)
+    rc, runs, err = run_cases(ctx, cases, trace=True)
+    if rc != 0:
+        crash_violation(ctx, cases, runs, rc, err, what="notify harness (payloadv co-simulation cases)")
+    lines, index = [], []
+    for c, r in zip(cases, runs):
+        ctx.count_case("cosimv " + c.text(), nontrivial=c.P > 1 and any(len(x) for x in c.patterns[0]))
+        probs = judge(c, r)
+        for kind, text, detail in probs:
+            rep = dict(case=c.to_json(), kind=kind)
+            rep.update(detail)
+            ctx.violation("%s:%s" % (kind, c.key()), "%s [%s]" % (text, c.header()), rep)
+        if r.rc != 0 or probs:
+            continue
+        per = mpitrace.rank_events(r.trace, c.P)
+        for q in range(c.P):
+            l = cosimv_line(c, r, q, per, r.trace)
+            if l is not None:
+                lines.append(l)
+                index.append((c, q))
+    nmis = 0
+    try:
+        mexe = ctx.model("c01")
+        rc2, mout, err2 = ctx.run_lines([mexe], "\n".join(lines) + "\n", timeout=900)
+        mout = [l for l in mout if l != ""]
+        if rc2 != 0 or len(mout) != len(lines):
+            ctx.tie_broken("c01 model run (payloadv co-simulation)", "exit %s, %d of %d lines: %s" % (rc2, len(mout), len(lines), err2[-500:]))
+        for (c, q), l, src in zip(index, mout, lines):
+            if not l.startswith("OK"):
+                nmis += 1
+                if nmis <= 3:
+                    ctx.tie_broken("payloadv co-simulation %s rank %d of [%s]" % (TYPES[c.type], q, c.header()), (l[:400] + " || " + src[:600]))
+    except vlib.BuildError as e:
+        ctx.tie_broken("c01 model build", str(e)[-1500:])
+    ctx.cov["disagreements_checked"] += len(lines)
+    ctx.notes["cosimulated_payloadv_rank_traces"] = len(lines)
+    ctx.notes["cosimv_mismatches"] = nmis
+    return len(lines)
